@@ -29,6 +29,31 @@ theorem decSeqX_placed {α} (d : DecX α) (file : Bytes) :
     simp only [List.length_cons, decSeqX, hp, List.append_assoc] at h1 ⊢
     simp only [h1, ih, placed]
 
+/-! ### the offset records -/
+
+open AgVerif.Spec.DexFile (uint) in
+theorem decOffList_enc (l : List Nat) (rest : Bytes) (h : OffListOk l) :
+    decOffList (encOffList l ++ rest) = some (l, rest) := by
+  have hn := decN_flat u32 uint (fun x => x) l rest (fun x hx r => u32_enc x r (h.2 x hx))
+  simp only [List.map_id'] at hn
+  simp only [decOffList, encOffList, List.append_assoc, u32_enc _ _ h.1, bind, Option.bind, hn]
+
+open AgVerif.Spec.DexFile (uint) in
+theorem decPairs_enc (l : List (Nat × Nat)) (rest : Bytes) (h : PairsOk l) :
+    decN decPair l.length (encPairs l ++ rest) = some (l, rest) := by
+  have hn := decN_flat decPair (fun p : Nat × Nat => uint p.1 ++ uint p.2) (fun x => x) l rest
+    (fun x hx r => by
+      obtain ⟨h1, h2⟩ := h.2 x hx
+      simp only [decPair, List.append_assoc, u32_enc _ _ h1, u32_enc _ _ h2, bind, Option.bind, pure])
+  simp only [List.map_id'] at hn
+  exact hn
+
+theorem decAnnDir_enc (d : AnnDir) (rest : Bytes) (h : AnnDirOk d) :
+    decAnnDir (encAnnDir d ++ rest) = some (d, rest) := by
+  obtain ⟨h0, hf, hm, hp⟩ := h
+  simp only [decAnnDir, encAnnDir, List.append_assoc, u32_enc _ _ h0, u32_enc _ _ hf.1, u32_enc _ _ hm.1,
+    u32_enc _ _ hp.1, bind, Option.bind, decPairs_enc _ _ hf, decPairs_enc _ _ hm, decPairs_enc _ _ hp, pure]
+
 /-! ### the lookups of EncodedValue on the loaded id sections -/
 
 variable {file : Bytes} {L : Layout} {TX : TablesX} {pre rest : List MapEntry} {e : MapEntry}
@@ -61,6 +86,10 @@ theorem lookOf_cmP {T : Tables} (hs : Sorted L pre e rest) (h1 : (L.sec 0x0001).
 def cmPX (TX : TablesX) (L : Layout) (pre : List MapEntry) : CMx :=
   { base := cmP TX.base L pre
     encArrays := if has pre 0x2005 then (tablesCMX TX L).encArrays else none
+    annItems := if has pre 0x2004 then (tablesCMX TX L).annItems else none
+    annSets := if has pre 0x1003 then (tablesCMX TX L).annSets else none
+    annRefs := if has pre 0x1002 then (tablesCMX TX L).annRefs else none
+    annDirs := if has pre 0x2006 then (tablesCMX TX L).annDirs else none
     classX := if has pre 0x0006 then (tablesCMX TX L).classX else []
     inits := if has pre 0x0006 then (tablesCMX TX L).inits else [] }
 
@@ -79,17 +108,7 @@ theorem stepX_cmPX_base (henc : EncodesX file L TX) (hwf : WFX TX L) (hs : Sorte
   have : (cmPX TX L pre).base = cmP TX.base L pre := rfl
   rw [this, hb]
   simp only [Except.ok.injEq]
-  apply CMx.ext' <;> simp [cmPX, has_append, h1, h6]
-
-theorem noAnn_absurd (henc : EncodesX file L TX) (hs : Sorted L pre e rest)
-    (h : e.type = 0x2004 ∨ e.type = 0x1003 ∨ e.type = 0x1002 ∨ e.type = 0x2006) : False := by
-  have hm := sec_of_mem henc.base.nodup (hs.mem e (by simp))
-  obtain ⟨n1, n2, n3, n4⟩ := henc.noAnn
-  rcases h with h | h | h | h <;> rw [h] at hm
-  · rw [n1] at hm; cases hm
-  · rw [n2] at hm; cases hm
-  · rw [n3] at hm; cases hm
-  · rw [n4] at hm; cases hm
+  apply CMx.ext' <;> simp [cmPX, has_append, h1, h2, h3, h4, h5, h6]
 
 /-- ENCODED_ARRAY_ITEM -/
 theorem stepX_cmPX_2005 (henc : EncodesX file L TX) (hwf : WFX TX L) (hs : Sorted L pre e rest)
@@ -119,27 +138,129 @@ theorem stepX_cmPX_2005 (henc : EncodesX file L TX) (hwf : WFX TX L) (hs : Sorte
   simp only [Except.ok.injEq] at hbase
   apply CMx.ext' <;> simp [cmPX, has_append, ht, tablesCMX, he, eaTab, tab, ← hbase]
 
-theorem rank_2005_lt_6 : (rank Gen.MapDeps.loadOrder 0x2005).getD 0 < 19 := by decide
+/-- ANNOTATION_ITEM -/
+theorem stepX_cmPX_2004 (henc : EncodesX file L TX) (hwf : WFX TX L) (hs : Sorted L pre e rest)
+    (ht : e.type = 0x2004) : stepX file (cmPX TX L pre) e = .ok (cmPX TX L (pre ++ [e])) := by
+  have he := sec_of_sorted henc.base hs ht
+  have hk : key e = 14 := by rw [key, ht]; decide
+  obtain ⟨hn, _, hat⟩ := henc.annItems.get he
+  have hitems : bytesOf (TX.aiItems L) = bytesOf TX.annItems := by
+    simp [bytesOf, TablesX.aiItems, List.flatMap_map]
+  have hd : decSeqX (decAnnItemX (lookOf (cmP TX.base L pre))) file (TX.aiItems L).length e.offset
+      = .ok (placed e.offset (TX.aiItems L)) := by
+    apply decSeqX_placed
+    · intro p hp r
+      obtain ⟨q, hq, rfl⟩ := List.mem_map.mp hp
+      obtain ⟨s1, s2, s4, s5⟩ := hwf.itemSecs (List.ne_nil_of_mem hq)
+      rw [lookOf_cmP hs s1 s2 s4 s5 (by omega)]
+      exact decAnnItemX_enc _ q.2 _ _ _ r (henc.items q hq)
+    · rw [hitems]; exact hat
+  have hlen : (TX.aiItems L).length = e.size := by simp [TablesX.aiItems, hn]
+  rw [hlen] at hd
+  have hb : (cmPX TX L pre).base = cmP TX.base L pre := rfl
+  simp only [stepX, ht, Nat.reduceEqDiff, ↓reduceIte, hb, hd, Except.ok.injEq]
+  have hbase := step_cmP henc.base hwf.base hs
+  have hstep : step file (cmP TX.base L pre) e = .ok (cmP TX.base L pre) :=
+    DexFrame.step_other _ _ _ (by rw [ht]; decide)
+  rw [hstep] at hbase
+  simp only [Except.ok.injEq] at hbase
+  apply CMx.ext' <;> simp [cmPX, has_append, ht, tablesCMX, he, aiTab, tab, ← hbase]
 
-/-- the second half of ClassDefItem.reload against the loaded array section -/
-theorem resolveClassX_tab (cx : CMx) (c : ClassDef) (hann : c.annOff = 0)
+/-- ANNOTATION_SET_ITEM -/
+theorem stepX_cmPX_1003 (henc : EncodesX file L TX) (hwf : WFX TX L) (hs : Sorted L pre e rest)
+    (ht : e.type = 0x1003) : stepX file (cmPX TX L pre) e = .ok (cmPX TX L (pre ++ [e])) := by
+  have he := sec_of_sorted henc.base hs ht
+  obtain ⟨hn, hal, hat⟩ := henc.annSets.get he
+  have hd := decSeq_placed decOffList file TX.setItems e.offset (by
+      intro p hp r
+      obtain ⟨l, hl, rfl⟩ := List.mem_map.mp hp
+      exact decOffList_enc l r (hwf.setsOk l hl)) hat
+  have hlen : TX.setItems.length = e.size := by simp [TablesX.setItems, hn]
+  rw [hlen] at hd
+  simp only [stepX, ht, Nat.reduceEqDiff, ↓reduceIte, seek4_aligned _ (hal rfl), hd, structErr, Except.ok.injEq]
+  have hbase := step_cmP henc.base hwf.base hs
+  have hstep : step file (cmP TX.base L pre) e = .ok (cmP TX.base L pre) :=
+    DexFrame.step_other _ _ _ (by rw [ht]; decide)
+  rw [hstep] at hbase
+  simp only [Except.ok.injEq] at hbase
+  apply CMx.ext' <;> simp [cmPX, has_append, ht, tablesCMX, he, setTab, tab, ← hbase]
+
+/-- ANNOTATION_SET_REF_LIST -/
+theorem stepX_cmPX_1002 (henc : EncodesX file L TX) (hwf : WFX TX L) (hs : Sorted L pre e rest)
+    (ht : e.type = 0x1002) : stepX file (cmPX TX L pre) e = .ok (cmPX TX L (pre ++ [e])) := by
+  have he := sec_of_sorted henc.base hs ht
+  obtain ⟨hn, hal, hat⟩ := henc.annRefs.get he
+  have hd := decSeq_placed decOffList file TX.refItems e.offset (by
+      intro p hp r
+      obtain ⟨l, hl, rfl⟩ := List.mem_map.mp hp
+      exact decOffList_enc l r (hwf.refsOk l hl)) hat
+  have hlen : TX.refItems.length = e.size := by simp [TablesX.refItems, hn]
+  rw [hlen] at hd
+  simp only [stepX, ht, Nat.reduceEqDiff, ↓reduceIte, seek4_aligned _ (hal rfl), hd, structErr, Except.ok.injEq]
+  have hbase := step_cmP henc.base hwf.base hs
+  have hstep : step file (cmP TX.base L pre) e = .ok (cmP TX.base L pre) :=
+    DexFrame.step_other _ _ _ (by rw [ht]; decide)
+  rw [hstep] at hbase
+  simp only [Except.ok.injEq] at hbase
+  apply CMx.ext' <;> simp [cmPX, has_append, ht, tablesCMX, he, refTab, tab, ← hbase]
+
+/-- ANNOTATIONS_DIRECTORY_ITEM -/
+theorem stepX_cmPX_2006 (henc : EncodesX file L TX) (hwf : WFX TX L) (hs : Sorted L pre e rest)
+    (ht : e.type = 0x2006) : stepX file (cmPX TX L pre) e = .ok (cmPX TX L (pre ++ [e])) := by
+  have he := sec_of_sorted henc.base hs ht
+  obtain ⟨hn, hal, hat⟩ := henc.annDirs.get he
+  have hd := decSeq_placed decAnnDir file TX.dirItems e.offset (by
+      intro p hp r
+      obtain ⟨d, hdm, rfl⟩ := List.mem_map.mp hp
+      exact decAnnDir_enc d r (hwf.dirsOk d hdm)) hat
+  have hlen : TX.dirItems.length = e.size := by simp [TablesX.dirItems, hn]
+  rw [hlen] at hd
+  simp only [stepX, ht, Nat.reduceEqDiff, ↓reduceIte, seek4_aligned _ (hal rfl), hd, structErr, Except.ok.injEq]
+  have hbase := step_cmP henc.base hwf.base hs
+  have hstep : step file (cmP TX.base L pre) e = .ok (cmP TX.base L pre) :=
+    DexFrame.step_other _ _ _ (by rw [ht]; decide)
+  rw [hstep] at hbase
+  simp only [Except.ok.injEq] at hbase
+  apply CMx.ext' <;> simp [cmPX, has_append, ht, tablesCMX, he, dirTab, tab, ← hbase]
+
+theorem rank_2006 : (rank Gen.MapDeps.loadOrder 0x2006).getD 0 = 18 := by decide
+
+theorem resolveStatics_tab (cx : CMx) (c : ClassDef) (a : Option AnnDir)
     (hea : c.staticOff ≠ 0 → cx.encArrays = some (eaTab TX L))
     (hst : c.staticOff ≠ 0 → (classDataAt TX.base L c.dataOff).isSome → (staticsAt TX L c.staticOff).isSome) :
-    resolveClassX cx c (classDataAt TX.base L c.dataOff) = .ok (classXOf TX L c, initOf TX L c) := by
-  unfold resolveClassX
-  simp only [hann, ↓reduceIte]
+    (if c.staticOff = 0 then (Except.ok (⟨a, none⟩, none) : Except String (ClassX × Option (Nat × List Value))) else
+      match cx.encArrays with
+      | none => .error "KeyError"
+      | some l =>
+        match classDataAt TX.base L c.dataOff, lookupOff c.staticOff l with
+        | some _, none => .error "AttributeError"
+        | some _, some vs => .ok (⟨a, some vs⟩, some (c.dataOff, vs))
+        | none, sv => .ok (⟨a, sv⟩, none)) = .ok (⟨a, staticsAt TX L c.staticOff⟩, initOf TX L c) := by
   by_cases h0 : c.staticOff = 0
-  · simp [h0, classXOf, initOf, staticsAt]
+  · simp [h0, initOf, staticsAt]
   · simp only [h0, ↓reduceIte, hea h0]
     have hs' := hst h0
     simp only [staticsAt, h0, ↓reduceIte] at hs'
     cases hd : classDataAt TX.base L c.dataOff with
-    | none => simp [classXOf, initOf, staticsAt, h0, hd]
+    | none => simp [initOf, staticsAt, h0, hd]
     | some d =>
       rw [hd] at hs'
       cases hl : lookupOff c.staticOff (eaTab TX L) with
       | none => simp [hl] at hs'
-      | some vs => simp [classXOf, initOf, staticsAt, h0, hd, hl]
+      | some vs => simp [initOf, staticsAt, h0, hd, hl]
+
+/-- the second half of ClassDefItem.reload against the loaded directory and array sections -/
+theorem resolveClassX_tab (cx : CMx) (c : ClassDef)
+    (hdir : c.annOff ≠ 0 → cx.annDirs = some (dirTab TX L))
+    (hea : c.staticOff ≠ 0 → cx.encArrays = some (eaTab TX L))
+    (hst : c.staticOff ≠ 0 → (classDataAt TX.base L c.dataOff).isSome → (staticsAt TX L c.staticOff).isSome) :
+    resolveClassX cx c (classDataAt TX.base L c.dataOff) = .ok (classXOf TX L c, initOf TX L c) := by
+  unfold resolveClassX classXOf
+  by_cases ha : c.annOff = 0
+  · simp only [ha, ↓reduceIte, annDirAt]
+    exact resolveStatics_tab cx c none hea hst
+  · simp only [ha, ↓reduceIte, annDirAt, hdir ha]
+    exact resolveStatics_tab cx c _ hea hst
 
 /-- CLASS_DEF_ITEM -/
 theorem stepX_cmPX_6 (henc : EncodesX file L TX) (hwf : WFX TX L) (hs : Sorted L pre e rest)
@@ -169,7 +290,11 @@ theorem stepX_cmPX_6 (henc : EncodesX file L TX) (hwf : WFX TX L) (hs : Sorted L
       rw [hb, hrc]
       have hd : (classR TX.base L x.2).data = classDataAt TX.base L x.2.dataOff := rfl
       simp only [hd]
-      rw [resolveClassX_tab (TX := TX) (L := L) (cmPX TX L pre) x.2 (hwf.noDirs x.2 hxm)
+      rw [resolveClassX_tab (TX := TX) (L := L) (cmPX TX L pre) x.2
+        (fun h0 => by
+          have hsec := hwf.dirs x.2 hxm h0
+          show (if has pre 0x2006 then (L.sec 0x2006).map (fun _ => dirTab TX L) else none) = some (dirTab TX L)
+          exact cmP_some hs 0x2006 _ hsec (by rw [rank_2006]; omega))
         (fun h0 => by
           have hsec := (hwf.statics x.2 hxm h0).1
           show (if has pre 0x2005 then (L.sec 0x2005).map (fun _ => eaTab TX L) else none) = some (eaTab TX L)
@@ -197,10 +322,10 @@ theorem stepX_cmPX_6 (henc : EncodesX file L TX) (hwf : WFX TX L) (hs : Sorted L
   · simp only [List.map_map, Function.comp_def, hb]
     exact hstep.symm
   · simp [cmPX, has_append, ht]
-  · rfl
-  · rfl
-  · rfl
-  · rfl
+  · simp [cmPX, has_append, ht]
+  · simp [cmPX, has_append, ht]
+  · simp [cmPX, has_append, ht]
+  · simp [cmPX, has_append, ht]
   · simp only [cmPX, has_append, ht, tablesCMX, he, List.map_map, Function.comp_def]
     simp only [Bool.or_true, ↓reduceIte, BEq.rfl, Option.elim_some]
     exact hmap (classXOf TX L)
@@ -210,10 +335,10 @@ theorem stepX_cmPX_6 (henc : EncodesX file L TX) (hwf : WFX TX L) (hs : Sorted L
 theorem stepX_cmPX (henc : EncodesX file L TX) (hwf : WFX TX L) (hs : Sorted L pre e rest) :
     stepX file (cmPX TX L pre) e = .ok (cmPX TX L (pre ++ [e])) := by
   by_cases h1 : e.type = 0x2005; · exact stepX_cmPX_2005 henc hwf hs h1
-  by_cases h2 : e.type = 0x2004; · exact (noAnn_absurd henc hs (.inl h2)).elim
-  by_cases h3 : e.type = 0x1003; · exact (noAnn_absurd henc hs (.inr (.inl h3))).elim
-  by_cases h4 : e.type = 0x1002; · exact (noAnn_absurd henc hs (.inr (.inr (.inl h4)))).elim
-  by_cases h5 : e.type = 0x2006; · exact (noAnn_absurd henc hs (.inr (.inr (.inr h5)))).elim
+  by_cases h2 : e.type = 0x2004; · exact stepX_cmPX_2004 henc hwf hs h2
+  by_cases h3 : e.type = 0x1003; · exact stepX_cmPX_1003 henc hwf hs h3
+  by_cases h4 : e.type = 0x1002; · exact stepX_cmPX_1002 henc hwf hs h4
+  by_cases h5 : e.type = 0x2006; · exact stepX_cmPX_2006 henc hwf hs h5
   by_cases h6 : e.type = 0x0006; · exact stepX_cmPX_6 henc hwf hs h6
   exact stepX_cmPX_base henc hwf hs h1 h2 h3 h4 h5 h6
 
@@ -239,16 +364,19 @@ theorem cmPX_all (henc : EncodesX file L TX) (l : List MapEntry) (ha : ∀ x ∈
       obtain ⟨ht, hm⟩ := sec_some hq
       have := has_mem (ha e2 hm)
       rwa [ht] at this
+  have hopt : ∀ {α : Type} (d : Nat) (x : α),
+      (if has l d then (L.sec d).map (fun _ => x) else none) = (L.sec d).map (fun _ => x) := by
+    intro α d x
+    cases hq : L.sec d with
+    | none => simp
+    | some e2 => simp [hh d (by simp [hq])]
   apply CMx.ext'
   · exact cmP_all henc.base l ha
-  · show (if has l 0x2005 then (tablesCMX TX L).encArrays else none) = _
-    cases hq : L.sec 0x2005 with
-    | none => simp [tablesCMX, hq]
-    | some e2 => simp [hh 0x2005 (by simp [hq])]
-  · rfl
-  · rfl
-  · rfl
-  · rfl
+  · exact hopt 0x2005 _
+  · exact hopt 0x2004 _
+  · exact hopt 0x1003 _
+  · exact hopt 0x1002 _
+  · exact hopt 0x2006 _
   · show (if has l 0x0006 then (tablesCMX TX L).classX else []) = _
     cases hq : L.sec 0x0006 with
     | none => simp [tablesCMX, hq]
